@@ -26,6 +26,7 @@ RULE = (
 ASSUMPTIONS = [
     "for processor and unrecognised types the property only demands that INQUIRY, TEST UNIT READY and REPORT LUNS are offered at their T10 values; which table is chosen is not constrained",
     "binding stand-ins with per-device routing (pbt/standins)",
+    "devices have 36, 96, 164 or 260 bytes of standard INQUIRY data; the facade may be an instance of a Python subclass of SCSI that is constructed detached and attached by calling it; the same device object may be attached again after the unit behind it changed type; a replug of an SG_IO node between attach and command keeps the selection",
 ]
 
 EXPECT = {0x00: "sbc", 0x04: "sbc", 0x07: "sbc", 0x01: "ssc", 0x05: "mmc", 0x08: "smc"}
